@@ -228,6 +228,41 @@ func sweep(x *h.Exec, ev *h.Event, want func(string) bool, judge func(h.Query) b
 				return
 			}
 		}
+		// lookups exactly where something is to be looked up: on every stored
+		// origin (go-to-definition) and on every stored declaration's definition
+		// (find-references); the sweep below only samples offsets
+		if c == nil || c.Offsets == nil {
+			n := 0
+			for _, org := range p.Ctx().ReferenceOrigins {
+				if n >= 80 || !want("goto_def") {
+					break
+				}
+				rng := org.OriginRange()
+				if f := p.File(rng.Filename); f == nil || rng.Start.Byte > len(f.Text) {
+					continue
+				}
+				n++
+				if judge(h.Query{Kind: "goto_def", Path: pi, File: rng.Filename, Off: rng.Start.Byte}) {
+					return
+				}
+			}
+			n = 0
+			for _, t := range p.Ctx().ReferenceTargets {
+				if n >= 50 || !want("find_refs") {
+					break
+				}
+				if t.DefRangePtr == nil {
+					continue
+				}
+				if f := p.File(t.DefRangePtr.Filename); f == nil || t.DefRangePtr.Start.Byte > len(f.Text) {
+					continue
+				}
+				n++
+				if judge(h.Query{Kind: "find_refs", Path: pi, File: t.DefRangePtr.Filename, Off: t.DefRangePtr.Start.Byte}) {
+					return
+				}
+			}
+		}
 		for _, f := range p.Files {
 			if c != nil && c.Offsets != nil && ev.File != "" && f.Name != ev.File {
 				continue
